@@ -32,15 +32,40 @@ type F = Fq;
 type AN = AssignedNative<F>;
 type NG = NativeGadget<F, P2RDecompositionChip<F>, NativeChip<F>>;
 type MEP = MultiEmulationParams;
+type C25519P = midnight_curves::curve25519::Fp;
+type C25519S = midnight_curves::curve25519::Scalar;
+
+/// What the field-operation bodies need from the native side: implemented by
+/// `ZkStdLib` and by a bare `NativeGadget`.
+pub trait NatOps:
+    AssignmentInstructions<F, AssignedBit<F>>
+    + AssignmentInstructions<F, AssignedByte<F>>
+    + AssignmentInstructions<F, AN>
+    + ConversionInstructions<F, AN, AssignedBit<F>>
+    + ConversionInstructions<F, AN, AssignedByte<F>>
+    + PublicInputInstructions<F, AN>
+{
+}
+impl<T> NatOps for T where
+    T: AssignmentInstructions<F, AssignedBit<F>>
+        + AssignmentInstructions<F, AssignedByte<F>>
+        + AssignmentInstructions<F, AN>
+        + ConversionInstructions<F, AN, AssignedBit<F>>
+        + ConversionInstructions<F, AN, AssignedByte<F>>
+        + PublicInputInstructions<F, AN>
+{
+}
 
 pub const MARKER: u64 = 0x5EBA_5EBA_5EBA;
 
 pub const FF_OPS: &[&str] = &[
     "add", "sub", "mul", "div", "neg", "inv", "square", "add_constant", "mul_by_constant", "is_equal", "is_zero",
     "assert_equal", "assert_not_equal", "assert_non_zero", "select", "chain", "sum_then_mul", "pow", "to_le_bits", "from_bit",
-    "from_byte", "is_equal_to_fixed",
+    "from_byte", "is_equal_to_fixed", "from_le_bytes", "from_le_bits", "to_le_bytes",
 ];
-pub const FF_FIELDS: &[&str] = &["k256p", "k256q", "blsp"];
+/// k256p / k256q / blsp through ZkStdLib; c25519p / c25519s (Curve25519 base and
+/// scalar fields, 51-bit limbs for the latter) in a circuit built on FieldChip.
+pub const FF_FIELDS: &[&str] = &["k256p", "k256q", "blsp", "c25519p", "c25519s"];
 pub const BIG_OPS: &[&str] = &[
     "add", "sub", "mul", "div_rem", "mod_exp", "lower_than", "is_equal", "assert_equal", "select", "to_le_bits",
     "to_le_bytes", "from_le_bits", "from_le_bytes", "is_zero",
@@ -71,6 +96,8 @@ pub fn big_ops() -> Vec<String> {
 
 pub fn modulus_of(field: &str) -> BigUint {
     match field {
+        "c25519p" => <C25519P as CircuitField>::modulus(),
+        "c25519s" => <C25519S as CircuitField>::modulus(),
         "k256p" => <k256::Fp as CircuitField>::modulus(),
         "k256q" => <k256::Fq as CircuitField>::modulus(),
         _ => <BlsFp as CircuitField>::modulus(),
@@ -78,6 +105,8 @@ pub fn modulus_of(field: &str) -> BigUint {
 }
 fn limb_params(field: &str) -> (u32, u32) {
     match field {
+        "c25519p" => (<MEP as FieldEmulationParams<F, C25519P>>::LOG2_BASE, <MEP as FieldEmulationParams<F, C25519P>>::NB_LIMBS),
+        "c25519s" => (<MEP as FieldEmulationParams<F, C25519S>>::LOG2_BASE, <MEP as FieldEmulationParams<F, C25519S>>::NB_LIMBS),
         "k256p" => (<MEP as FieldEmulationParams<F, k256::Fp>>::LOG2_BASE, <MEP as FieldEmulationParams<F, k256::Fp>>::NB_LIMBS),
         "k256q" => (<MEP as FieldEmulationParams<F, k256::Fq>>::LOG2_BASE, <MEP as FieldEmulationParams<F, k256::Fq>>::NB_LIMBS),
         _ => (<MEP as FieldEmulationParams<F, BlsFp>>::LOG2_BASE, <MEP as FieldEmulationParams<F, BlsFp>>::NB_LIMBS),
@@ -185,6 +214,22 @@ pub fn gen_case(rng: &mut Prng, op: &str) -> OpCase {
             }
             "from_bit" => ins = vec![Fq::from(rng.below(2))],
             "from_byte" => ins = vec![Fq::from(*rng.pick(&[0u64, 1, 255, 128]))],
+            "from_le_bytes" => {
+                // lengths around the limb boundaries, up to the bytes of the modulus
+                let max = (m.bits() as usize).div_ceil(8);
+                let n = *rng.pick(&[1usize, 6, 7, 8, 9, 13, 16, 31, max]);
+                let n = n.min(max);
+                p.push(n as u64);
+                let mode = rng.below(3);
+                ins = (0..n).map(|_| Fq::from(match mode { 0 => 0xff, 1 => rng.below(256), _ => *rng.pick(&[0u64, 1, 0x80, 0xff]) })).collect();
+            }
+            "from_le_bits" => {
+                let n = *rng.pick(&[1usize, 50, 51, 52, 63, 64, 65, 128, 200]);
+                let n = n.min(m.bits() as usize - 1);
+                p.push(n as u64);
+                ins = (0..n).map(|_| Fq::from(rng.below(2))).collect();
+            }
+            "to_le_bytes" => bins = vec![v(rng)],
             o => panic!("unknown ff op {o}"),
         }
     } else {
@@ -278,7 +323,7 @@ pub fn gen_case(rng: &mut Prng, op: &str) -> OpCase {
 
 // ------------------------------------------------------------------ bodies
 
-fn publish<L: Layouter<F>>(s: &ZkStdLib, l: &mut L, xs: &[AN]) -> Result<(), Error> {
+fn publish<L: Layouter<F>, S: NatOps>(s: &S, l: &mut L, xs: &[AN]) -> Result<(), Error> {
     for x in xs {
         s.constrain_as_public_input(l, x)?;
     }
@@ -286,8 +331,9 @@ fn publish<L: Layouter<F>>(s: &ZkStdLib, l: &mut L, xs: &[AN]) -> Result<(), Err
     s.constrain_as_public_input(l, &m)
 }
 
-fn ff_body_k<K, L>(c: &OpCase, op: &str, chip: &FieldChip<F, K, MEP, NG>, s: &ZkStdLib, l: &mut L, w: &[Value<F>], wb: &[Value<BigUint>]) -> Result<(), Error>
+pub fn ff_body_k<K, L, S>(c: &OpCase, op: &str, chip: &FieldChip<F, K, MEP, NG>, s: &S, l: &mut L, w: &[Value<F>], wb: &[Value<BigUint>]) -> Result<(), Error>
 where
+    S: NatOps,
     K: CircuitField,
     MEP: FieldEmulationParams<F, K>,
     L: Layouter<F>,
@@ -304,6 +350,16 @@ where
         "from_byte" => {
             let b: AssignedByte<F> = s.assign(l, w[0].map(|x| x.to_bytes_le()[0]))?;
             vec![b.into()]
+        }
+        "from_le_bytes" => {
+            let vals: Vec<Value<u8>> = w.iter().map(|v| v.map(|x| x.to_bytes_le()[0])).collect();
+            let b: Vec<AssignedByte<F>> = s.assign_many(l, &vals)?;
+            b.into_iter().map(|x| x.into()).collect()
+        }
+        "from_le_bits" => {
+            let vals: Vec<Value<bool>> = w.iter().map(|v| v.map(|x| x != Fq::ZERO)).collect();
+            let b: Vec<AssignedBit<F>> = s.assign_many(l, &vals)?;
+            b.into_iter().map(|x| x.into()).collect()
         }
         _ => vec![],
     };
@@ -388,6 +444,18 @@ where
             let x: AssignedField<F, K, MEP> = chip.convert(l, &b)?;
             vec![Fld(x)]
         }
+        "from_le_bytes" => {
+            let b: Vec<AssignedByte<F>> = nat.iter().map(|n| s.convert(l, n)).collect::<Result<_, _>>()?;
+            vec![Fld(chip.assigned_from_le_bytes(l, &b)?)]
+        }
+        "from_le_bits" => {
+            let b: Vec<AssignedBit<F>> = nat.iter().map(|n| s.convert(l, n)).collect::<Result<_, _>>()?;
+            vec![Fld(chip.assigned_from_le_bits(l, &b)?)]
+        }
+        "to_le_bytes" => {
+            let bytes = chip.assigned_to_le_bytes(l, &xs[0], None)?;
+            vec![Nat(bytes.iter().map(|b| b.into()).collect())]
+        }
         o => panic!("unknown ff op {o}"),
     };
     for o in outs {
@@ -407,9 +475,10 @@ pub fn body<L: Layouter<F>>(c: &OpCase, s: &ZkStdLib, l: &mut L, w: &[Value<F>],
     let parts: Vec<&str> = c.op.split('.').collect();
     if parts[0] == "ff" {
         return match parts[1] {
-            "k256q" => ff_body_k::<k256::Fq, L>(c, parts[2], s.secp256k1_scalar(), s, l, w, wb),
-            "k256p" => ff_body_k::<k256::Fp, L>(c, parts[2], s.secp256k1_curve().base_field_chip(), s, l, w, wb),
-            _ => ff_body_k::<BlsFp, L>(c, parts[2], s.bls12_381_curve().base_field_chip(), s, l, w, wb),
+            "c25519p" | "c25519s" => unreachable!("Curve25519 fields run in FfScratch"),
+            "k256q" => ff_body_k::<k256::Fq, L, ZkStdLib>(c, parts[2], s.secp256k1_scalar(), s, l, w, wb),
+            "k256p" => ff_body_k::<k256::Fp, L, ZkStdLib>(c, parts[2], s.secp256k1_curve().base_field_chip(), s, l, w, wb),
+            _ => ff_body_k::<BlsFp, L, ZkStdLib>(c, parts[2], s.bls12_381_curve().base_field_chip(), s, l, w, wb),
         };
     }
     // big unsigned integers
@@ -668,6 +737,31 @@ pub fn check(c: &OpCase, publics: &[Fq]) -> Result<bool, String> {
                 let s: BigUint = x[..n].iter().sum();
                 eqf(0, s * &x[n])
             }
+            "from_le_bytes" | "from_le_bits" => {
+                let width = if parts[2] == "from_le_bytes" { 8 } else { 1 };
+                let mut v = BigUint::zero();
+                for (i, d) in nat.iter().enumerate() {
+                    let dv = fq_to_big(d);
+                    if dv.bits() > width {
+                        return Ok(false);
+                    }
+                    v += dv << (width as usize * i);
+                }
+                expect_groups(1)?;
+                eqf(0, v)
+            }
+            "to_le_bytes" => {
+                expect_groups(1)?;
+                let mut v = BigUint::zero();
+                for (i, d) in go[0].iter().enumerate() {
+                    let dv = fq_to_big(d);
+                    if dv.bits() > 8 {
+                        return Err("a published byte exceeds 255".into());
+                    }
+                    v += dv << (8 * i);
+                }
+                if v == x[0] { Ok(true) } else { Err(format!("bytes encode {:x}, input is {:x}", v, x[0])) }
+            }
             "to_le_bits" => {
                 expect_groups(1)?;
                 let v = le_bits_value(&go[0])?;
@@ -786,6 +880,8 @@ pub fn expected_admissible(c: &OpCase) -> bool {
             "assert_not_equal" => &x[0] % &m != &x[1] % &m,
             "select" | "from_bit" => bit(&nat[0]),
             "from_byte" => fq_to_big(&nat[0]).bits() <= 8,
+            "from_le_bytes" => nat.iter().all(|b| fq_to_big(b).bits() <= 8),
+            "from_le_bits" => nat.iter().all(bit),
             _ => true,
         };
     }
@@ -800,5 +896,69 @@ pub fn expected_admissible(c: &OpCase) -> bool {
         "from_le_bits" => nat.iter().all(bit),
         "from_le_bytes" => nat.iter().all(|b| fq_to_big(b).bits() <= 8),
         _ => true,
+    }
+}
+
+// ------------------------------------------------------------------ fields not exposed by ZkStdLib
+
+/// A circuit built on `NativeGadget` + `FieldChip<F, K, MEP, NG>` alone, for the
+/// emulation parameter sets the standard library does not instantiate.
+#[derive(Clone)]
+pub struct FfScratch {
+    pub case: OpCase,
+    pub known: bool,
+}
+
+type NgCfg = <NG as midnight_circuits::testing_utils::FromScratch<F>>::Config;
+
+impl FfScratch {
+    fn synth<K: CircuitField>(&self, config: &(NgCfg, midnight_circuits::field::foreign::FieldChipConfig), mut l: impl Layouter<F>) -> Result<(), Error>
+    where
+        MEP: FieldEmulationParams<F, K>,
+    {
+        use midnight_circuits::testing_utils::FromScratch;
+        let ng = NG::new_from_scratch(&config.0);
+        let chip = FieldChip::<F, K, MEP, NG>::new(&config.1, &ng);
+        let op = self.case.op.split('.').nth(2).unwrap().to_string();
+        let w: Vec<Value<F>> = self.case.ins.iter().map(|x| if self.known { Value::known(x.0) } else { Value::unknown() }).collect();
+        let wb: Vec<Value<BigUint>> = (0..self.case.bins.len()).map(|i| if self.known { Value::known(self.case.bin(i)) } else { Value::unknown() }).collect();
+        ff_body_k::<K, _, NG>(&self.case, &op, &chip, &ng, &mut l, &w, &wb)?;
+        ng.load_from_scratch(&mut l)
+    }
+}
+
+impl midnight_proofs::plonk::Circuit<F> for FfScratch {
+    type Config = (NgCfg, midnight_circuits::field::foreign::FieldChipConfig);
+    type FloorPlanner = midnight_proofs::circuit::SimpleFloorPlanner;
+    /// true: the Curve25519 scalar field, false: its base field
+    type Params = bool;
+
+    fn without_witnesses(&self) -> Self {
+        FfScratch { case: self.case.clone(), known: false }
+    }
+    fn params(&self) -> bool {
+        self.case.op.starts_with("ff.c25519s")
+    }
+    fn configure_with_params(meta: &mut midnight_proofs::plonk::ConstraintSystem<F>, scalar: bool) -> Self::Config {
+        use midnight_circuits::{field::foreign::nb_field_chip_columns, testing_utils::FromScratch};
+        let committed = meta.instance_column();
+        let plain = meta.instance_column();
+        let constants = meta.fixed_column();
+        meta.enable_constant(constants);
+        let ng = NG::configure_from_scratch(meta, &[committed, plain]);
+        let n = if scalar { nb_field_chip_columns::<F, C25519S, MEP>() } else { nb_field_chip_columns::<F, C25519P, MEP>() };
+        let advice: Vec<_> = (0..n).map(|_| meta.advice_column()).collect();
+        let fc = if scalar { FieldChip::<F, C25519S, MEP, NG>::configure(meta, &advice) } else { FieldChip::<F, C25519P, MEP, NG>::configure(meta, &advice) };
+        (ng, fc)
+    }
+    fn configure(_meta: &mut midnight_proofs::plonk::ConstraintSystem<F>) -> Self::Config {
+        unreachable!("configured with parameters")
+    }
+    fn synthesize(&self, config: Self::Config, l: impl Layouter<F>) -> Result<(), Error> {
+        if self.case.op.starts_with("ff.c25519s") {
+            self.synth::<C25519S>(&config, l)
+        } else {
+            self.synth::<C25519P>(&config, l)
+        }
     }
 }
